@@ -144,14 +144,14 @@ CLAUSES = [
                {'max_assets': 5, 'max_expr_depth': 2, 'deep_chains': True},
                {'max_assets': 6, 'weird_names': True, 'explicit_ids': True, 'attackers': False,
                 'min_assets': 1}),
-           budget={'quick': 8000, 'thorough': 180000}),
+           budget={'quick': 8000, 'thorough': 100000}),
     Clause('random-plain-names', check_case, kind='random',
            strategy=lambda: lang_and_model(
                {'max_assets': 6, 'max_expr_depth': 2},
                {'max_assets': 7, 'explicit_ids': True, 'attackers': False, 'min_assets': 2}),
-           budget={'quick': 4000, 'thorough': 90000}),
+           budget={'quick': 4000, 'thorough': 50000}),
     Clause('corelang-models', check_corelang, kind='random',
            strategy=lambda: corelang_models(max_assets=6, attackers=False, weird_names=True, explicit_ids=True,
                                             min_assets=1).map(lambda m: {'model': m}),
-           budget={'quick': 480, 'thorough': 18000}),
+           budget={'quick': 480, 'thorough': 10000}),
 ]
